@@ -155,6 +155,45 @@ def rule_W1(ctx):
     return sites
 
 
+def rule_W10_one_shot(ctx):
+    """a generator object (the result of calling a generator method of the mixin, e.g. iter_path_reverse()) kept in a local
+    is exhausted by its first consumer: reading that local inside a loop, or more than once, gives the later readers nothing"""
+    n = 0
+    for m in T.MIXINS:
+        cls = ctx.p.cls(m)
+        gens = {f.srcname for f in cls.funcs() if f.kind == "method" and any(isinstance(x, (ast.Yield, ast.YieldFrom)) for x in walk_own(f.node))}
+        for func in cls.funcs():
+            for a in walk_own(func.node):
+                if not (isinstance(a, ast.Assign) and len(a.targets) == 1 and isinstance(a.targets[0], ast.Name) and isinstance(a.value, ast.Call)
+                        and isinstance(a.value.func, ast.Attribute) and a.value.func.attr in gens):
+                    continue
+                v = a.targets[0].id
+                n += 1
+                consuming = set()
+                for y in walk_own(func.node):
+                    if isinstance(y, (ast.For, ast.comprehension)) and isinstance(y.iter, ast.Name) and y.iter.id == v:
+                        consuming.add(id(y.iter))
+                    elif isinstance(y, ast.Call):
+                        for arg in list(y.args) + [k.value for k in y.keywords]:
+                            if isinstance(arg, ast.Name) and arg.id == v:
+                                consuming.add(id(arg))
+                            elif isinstance(arg, ast.Starred) and isinstance(arg.value, ast.Name) and arg.value.id == v:
+                                consuming.add(id(arg.value))
+                reads = [x for x in walk_own(func.node) if isinstance(x, ast.Name) and x.id == v and isinstance(x.ctx, ast.Load) and id(x) in consuming]
+                in_loop = []
+                for lp in walk_own(func.node):
+                    if isinstance(lp, (ast.For, ast.While)):
+                        body_ids = {id(y) for st in lp.body for y in ast.walk(st)}
+                        in_loop += [x for x in reads if id(x) in body_ids]
+                if in_loop or len(reads) > 1:
+                    ctx.viol("W10", func, (in_loop or reads)[0], "`%s` holds a generator (%s()): its first consumer exhausts it, so %s sees an empty "
+                             "sequence - a check made against it passes vacuously" % (v, a.value.func.attr, "every later loop iteration" if in_loop else "the second reader"),
+                             construct="%s: one-shot generator `%s` reused" % (func.qual, v))
+                else:
+                    ctx.inst("W10", func, a, "generator consumed once")
+    return n
+
+
 def rule_W6(ctx):
     fields = link_fields(ctx.p)
     n = 0
